@@ -21,7 +21,7 @@ pub static DEF: CheckDef = CheckDef {
     id: "C18",
     level: "fault_enumeration",
     technique: "deterministic storage simulation of the key store: seeded histories against a password/seed model; every crash point of the atomic file replace reached by the history (plus torn temporary files) is reopened; I/O errors injected into the file replace with the same manager used afterwards; single-byte corruption of the store file at every (thorough) or 24 drawn (quick) positions",
-    runs: (400, 4000),
+    runs: (800, 8000),
     generate,
     execute,
     shrink,
